@@ -26,11 +26,10 @@ def main():
     except BuildError as e:
         c.corr_broken.append({'kind': 'harness-build-failed', 'what': e.what, 'output': e.output[-1500:]})
         c.finish()
-    targeted_make('C04')
     c.prove()
     chk = coqchk(c, 'C04') if not quick and not c.proof_broken else 'not run (quick tier)'
     try:
-        build_driver()
+        build_driver(DRIVER_COMPONENTS)
     except BuildError as e:
         c.corr_broken.append({'kind': 'model-extraction-failed', 'what': e.what, 'output': e.output[-1500:]})
         c.finish()
@@ -52,6 +51,10 @@ def main():
                 for T in (TS if not quick else [0, 7]):
                     lines.append(run_line(m, sh[0], sh[1], sh[2], T, PADS[(sh[0] + T) % len(PADS)], 2 * (T % 2),
                                           rng.randrange(1 << 30), 'go', 1, 1))
+    # "many cells" stream: cell counts around / beyond any worker-pool or batch size
+    many = gen_many_cells(rng, models, MANY_N if quick else MANY_N + [511, 1000], record_upto=129 if quick else 257,
+                          per_n=3 if quick else None)
+    lines += many
     results = run_cases(lines)
     fp_lines, fp_idx = [], []
     for i, (l, r, raw) in enumerate(results):
@@ -62,6 +65,8 @@ def main():
     fp_of = dict(zip(fp_idx, fp_out))
     classes = set()
     n_rec = n_c = 0
+    max_cpg = 0
+    max_n = 0
     for i, (l, r, raw) in enumerate(results):
         if r is None:
             c.count(l, nontrivial=False)
@@ -79,6 +84,8 @@ def main():
         classes.add(cls)
         c.count((L['Model'],) + cls + (L['N'],), nontrivial=L['N'] > 1)
         n_c += L['Backend'] == 'c'
+        max_n = max(max_n, L['N'])
+        max_cpg = max(max_cpg, r.get('max_cells_per_goroutine', 0))
         if not r['ok']:
             c.violation('run_%d.json' % i, {'kind': 'vectorised-run-differs-or-touches-more', 'fails': r['fails'], 'case_line': l,
                                            'layout': L, 'replay': 'echo "%s" | harness/bin/cellrun' % l})
@@ -128,12 +135,13 @@ def main():
             c.violation('init_%s.json' % r['model'], {'kind': 'initialise-states-row-differs', 'fails': r['fails'], 'case_line': l,
                                                       'replay': 'echo "%s" | harness/bin/cellrun' % l})
     c.cov['rule'] = ('every model of sim.Catalog x (N,nSets,nIn) in %d shapes (nSets/nIn equal to, dividing, coprime with N) x T in {0,1,7,40} '
-                     'x exact / padded outputs (canaries) x padded state columns x Go-/C-backed arrays; per case: vectorised run vs N '
+                     '(plus a many-cells stream N in %s on %d cheap models, footprints recorded up to N=%d) x exact / padded outputs (canaries) x padded state columns x Go-/C-backed arrays; per case: vectorised run vs N '
                      'single-cell runs (two parameter packings) bit-for-bit, inputs/parameters bit-identical, recorded per-goroutine access '
                      'sets vs extracted Coq footprint; non-trivial = more than one cell; plus InitialiseStates(n) vs single-cell '
-                     'InitialiseStates(1) (homogeneous: must agree; heterogeneous GR4J/Lag: known finding)' % len(SHAPES))
+                     'InitialiseStates(1) (homogeneous: must agree; heterogeneous GR4J/Lag: known finding)' % (len(SHAPES), MANY_N if quick else MANY_N + [511, 1000], len(MANY_MODELS), 129 if quick else 257))
     c.finish(extra_cov={'models': len(models), 'case_classes_hit': len(classes), 'recorded_footprint_cases': n_rec,
-                        'c_backed_cases': n_c, 'heterogeneous_init_failures': n_het_fail, 'exhaustive': False, 'coqchk': chk},
+                        'c_backed_cases': n_c, 'many_cells_cases': len(many), 'largest_cell_count': max_n,
+                        'max_cells_handled_by_one_goroutine': max_cpg, 'heterogeneous_init_failures': n_het_fail, 'exhaustive': False, 'coqchk': chk},
              assumptions=['array library addresses the row-major offsets its arguments denote (C01/C02; the recorder measures element addresses through the public API and validates every logged value)',
                           'kernels touch only the views they are handed (checked per run by the recorder for the explored inputs)',
                           'custom-state kernels (GR4J, Lag) return a packed state no longer than the state row (same side condition as the known finding)',
